@@ -32,7 +32,7 @@ def program_slices(tier):
                         [[], ["tag"], ["rename_all"], ["optional_fields"], ["rename"], ["tag", "rename_all"], ["rename_all_kebab"]],
                         ["named"], [], [],
                         ["i32", "u64", "string", "unit", "opt_i32", "opt_inner", "vec_inner", "tup", "map", "map_e", "box_inner", "inner", "unite",
-                         "datae", "tage", "gen_inner", "pair", "optopt", "f64", "char", "deep", "vec_deep", "tree", "opt_tree", "oneu", "box_tage"],
+                         "datae", "tage", "gen_inner", "pair", "optopt", "f64", "char", "deep", "vec_deep", "tree", "opt_tree", "oneu", "box_tage", "box_opt_i32"],
                         [[], ["skip"], ["flatten"], ["inline"], ["optional"], ["optional_nullable"], ["optional_ssi"], ["rename"], ["default"]],
                         tys2=("string", "opt_i32") if not q else ("string",))))
     sl.append(("S2", sc(["struct"], [], [[], ["rename"]], ["tuple", "newtype", "unit", "named0", "tuple0"], [], [],
